@@ -9,9 +9,9 @@ git diff > /tmp/seed-$id.diff
 run() { HOME=$(mktemp -d) PYTHONPATH=$wt/src "$@"; }
 suite=$(run /venv/bin/python -m pytest -q -p no:cacheprovider test 2>&1 | tail -1)
 run /venv/bin/python demo.py > /tmp/seed-$id.with.txt 2>&1; with=$?
-git stash -q
+git apply -R /tmp/seed-$id.diff || { echo "cannot reverse patch"; exit 2; }
 run /venv/bin/python demo.py > /tmp/seed-$id.without.txt 2>&1; without=$?
-git stash pop -q
+git apply /tmp/seed-$id.diff || { echo "cannot re-apply patch"; exit 2; }
 echo "suite: $suite | demo with change: exit $with | without: exit $without"
 case "$suite" in *"192 passed"*) ;; *) echo "REJECT: suite does not pass"; exit 1;; esac
 [ $with -ne 0 ] && [ $without -eq 0 ] || { echo "REJECT: demo does not discriminate"; exit 1; }
